@@ -62,6 +62,26 @@ def run(payload):
             fails.append({"id": f"{solver}.{backend}", "equation": type(eq).__name__, "dt": dt, "N": N, "t_start": t0, "steps_with_trackers": info["solver"]["steps"],
                           "steps_without": info0["solver"]["steps"], "t_final": info["controller"]["t_final"], "t_end": t1,
                           "max_state_diff": float(np.max(np.abs(res.data - base.data))), "initial_modified": not np.array_equal(init.data, keep)})
+    # ---- a stepper keeps the time step it was made for, also after the same solver object made another stepper
+    from pde import DiffusionPDE as _Diff
+    from pde.solvers import AdamsBashforthSolver, CrankNicolsonSolver, ExplicitSolver, ImplicitSolver
+    for name, mk in (("euler", lambda b: ExplicitSolver(_Diff(), scheme="euler", backend=b)), ("runge-kutta", lambda b: ExplicitSolver(_Diff(), scheme="rk", backend=b)),
+                     ("adams-bashforth", lambda b: AdamsBashforthSolver(_Diff(), backend=b)), ("implicit", lambda b: ImplicitSolver(_Diff(), backend=b)),
+                     ("crank-nicolson", lambda b: CrankNicolsonSolver(_Diff(), backend=b))):
+        for backend in ("numpy", "numba"):
+            cases += 1
+            try:
+                st = ScalarField(UnitGrid([6], periodic=True), np.cos(np.arange(6.0)))
+                solver = mk(backend)
+                first = solver.make_stepper(st, dt=0.01)
+                solver.make_stepper(st, dt=0.005)
+                data = st.data.copy()
+                t_ret = first(st, 0.0, 0.1) if backend == "numpy" else first(st, 0.0, 0.1)
+                if abs(t_ret - 0.1) > 1e-9:
+                    fails.append({"id": "stepper_steps_with_one_dt_and_counts_with_another", "solver": name, "backend": backend, "dt_of_this_stepper": 0.01, "dt_of_the_later_stepper": 0.005,
+                                  "t_end": 0.1, "returned": float(t_ret)})
+            except Exception as e:
+                fails.append({"id": "two_steppers_error", "solver": name, "backend": backend, "error": f"{type(e).__name__}: {str(e)[:200]}"})
     # ---- complex-valued equation, initial state already complex: the run still works on a copy
     from pde import PDE
     for backend in ("numpy", "numba"):
